@@ -76,7 +76,10 @@ def run(prop, tier, seed, replay=None):
         "rule": "generated matching problems (linear / quadratic / trigonometric / inconsistent; 1-4 knobs, 1-5 targets; limits, "
                 "max_step, weights, tolerances, n_steps_max, Broyden, disabled knobs/targets) drawn by class (converging / failing by "
                 "tolerance / failing by limits / far start / raising action) x call sequences of solve/step/reload/tag/enable/disable/"
-                "clear_log; non-trivial = a problem whose Optimize object could be built; distinct PRNG states",
+                "clear_log, and the user's own moves between two calls (a knob assigned, a tolerance or a target weight changed: "
+                "set_tol / set_weight; the model is handed the tolerances in force); for disabled targets a twin run on the problem "
+                "in which that target is another function — finite, or nan / infinite / overflowing on part of the domain (oracle "
+                "only, twin_* counts); non-trivial = a problem whose Optimize object could be built; distinct PRNG states",
         "samples": samples, "traces_validated_against_impl": nlines, "correspondence_divergences": len(diffs),
         "oracle_failures": len(failures), "input_distribution": dict(sorted(stats_total.items())), "builds": ["pure"],
         "theorem_scope": dict(suite_opt_trace.STATS) if diffs is not None and "suite_opt_trace" in dir() else {},
